@@ -70,7 +70,9 @@ def check(case):
         shutil.copytree(os.path.join(REPO, "adcgen"), os.path.join(tmp, "adcgen"))
         cfg_file = os.path.join(tmp, "adcgen", "tensor_names.json")
         names = json.load(open(cfg_file))
-        ren = {"gs_amplitude": "amp", "eri": "W", "fock": "F", "orb_energy": "eps"}
+        # (names of pairwise different lengths: a name split by the length of another
+        #  family's base name shows up)
+        ren = {"gs_amplitude": "amp", "eri": "W", "fock": "F", "orb_energy": "eps", "gs_density": "rh"}
         names.update(ren)
         json.dump(names, open(cfg_file, "w"))
         got = probe(tmp, 0, 0, 0)
@@ -87,11 +89,29 @@ def check(case):
         text = re.sub(r"\{f\^", "{F^", text)
         text = re.sub(r"\{e_", "{eps_", text)
         return text
-    for k in ("E2", "t2_1", "S2", "M1"):
+    if got["names"]["gs_density"] != "rh":
+        return False, "configuration was not picked up"
+    for k in ("E2", "t2_1", "S2", "M1", "p2_oo_once", "p2_vv_once"):
         exp = " + ".join(sorted(rename(t) for t in ref[k].split(" + ")))
         gotk = " + ".join(sorted(got[k].split(" + ")))
         if exp != gotk:
             return False, f"{k} under renamed tensors: {gotk[:300]} vs renamed reference {exp[:300]}"
+    # the definition of the second order density in integrals and orbital energies (expanded
+    # denominators: compared as a whole), its order, its name in terms of the default names
+    # and its LaTeX form do not depend on the configured names otherwise
+    if got["p2_oo_full"] != rename(ref["p2_oo_full"]):
+        return False, (f"p2_oo fully expanded under renamed tensors: {got['p2_oo_full'][:300]} vs renamed "
+                       f"reference {rename(ref['p2_oo_full'])[:300]}")
+    # (longname(use_default_names=True) only maps the amplitude / density families back, other
+    #  tensors keep their configured name: only the density is compared)
+    got["p2_longname_default"] = got["p2_longname_default"].split()[-1]
+    ref = dict(ref, p2_longname_default=ref["p2_longname_default"].split()[-1])
+    for k in ("p2_V_order", "p2_longname_default", "p2_V_latex"):
+        if got[k] != ref[k]:
+            return False, f"{k} depends on the configured tensor names: {got[k]!r} vs {ref[k]!r}"
+    exp = ref["p2_longname"].replace("V_", "W_").replace("p0_", "rh0_")
+    if got["p2_longname"] != exp:
+        return False, f"longname under renamed tensors: {got['p2_longname']!r} vs {exp!r}"
     return True, ""
 
 
@@ -164,7 +184,63 @@ print("RESULT", len(r.terms), str(r), names)
     return True, ""
 
 
+def cfg_name_cases(tier, seed):
+    for amp, dens in (("amp", "rh"), ("t", "rho"), ("tt", "p"), ("s", "r")):
+        yield {"gs_amplitude": amp, "gs_density": dens}
+
+
+def cfg_name_check(case):
+    """classification and splitting of names under another tensor_names.json
+    (scratch copy of the package, fresh interpreter)"""
+    code = r'''
+import sys, re, itertools, json, logging, warnings
+warnings.filterwarnings("ignore"); logging.disable(logging.CRITICAL)
+sys.path.insert(0, sys.argv[1])
+from adcgen.tensor_names import (tensor_names, is_t_amplitude, is_gs_density, split_gs_density_name,
+                                 split_t_amplitude_name)
+amp, dens = sys.argv[2], sys.argv[3]
+assert (tensor_names.gs_amplitude, tensor_names.gs_density) == (amp, dens), "configuration was not picked up"
+bad = []
+pieces = [amp, dens, "c", "1", "20", "x"]
+for n in range(0, 5):
+    for tup in itertools.product(pieces, repeat=n):
+        name = "".join(tup)
+        if split_gs_density_name(name) != (name[:len(dens)], name[len(dens):]):
+            bad.append(f"split_gs_density_name({name!r}) = {split_gs_density_name(name)}")
+        if split_t_amplitude_name(name) != (name[:len(amp)], name[len(amp):]):
+            bad.append(f"split_t_amplitude_name({name!r}) = {split_t_amplitude_name(name)}")
+        if is_gs_density(name) != (re.fullmatch(re.escape(dens) + r"(\d+)?", name) is not None):
+            bad.append(f"is_gs_density({name!r}) = {is_gs_density(name)}")
+        doc = re.fullmatch(re.escape(amp) + r"(\d+)?(cc)?", name) is not None
+        if doc and not is_t_amplitude(name):
+            bad.append(f"is_t_amplitude({name!r}) is False for a documented amplitude name")
+        if is_t_amplitude(name) and not re.fullmatch(re.escape(amp) + r"[c\d]*", name):
+            bad.append(f"is_t_amplitude({name!r}) is True")
+print("RESULT " + json.dumps(bad[:5]))
+'''
+    tmp = tempfile.mkdtemp(prefix="pyvc_c19n_")
+    try:
+        shutil.copytree(os.path.join(REPO, "adcgen"), os.path.join(tmp, "adcgen"),
+                        ignore=shutil.ignore_patterns("__pycache__"))
+        cfg_file = os.path.join(tmp, "adcgen", "tensor_names.json")
+        names = json.load(open(cfg_file))
+        names.update(case)
+        json.dump(names, open(cfg_file, "w"))
+        p = subprocess.run([sys.executable, "-c", code, tmp, case["gs_amplitude"], case["gs_density"]],
+                           capture_output=True, text=True, timeout=600)
+    finally:
+        shutil.rmtree(tmp, ignore_errors=True)
+    line = [ln for ln in p.stdout.splitlines() if ln.startswith("RESULT ")]
+    if not line:
+        return False, "probe failed: " + p.stderr[-500:]
+    bad = json.loads(line[0][7:])
+    return (not bad), "; ".join(bad)
+
+
 CHECKS = {
+    "tensor_names.split_under_configuration": {
+        "function": "adcgen.tensor_names:split_gs_density_name", "cases": cfg_name_cases, "check": cfg_name_check,
+        "bound": "4 configurations of (gs_amplitude, gs_density) with base names of different lengths; all names of <= 4 pieces out of {amplitude base, density base, c, 1, 20, x}"},
     "independence.named_target_vs_cached_index": {
         "function": "adcgen.indices:Indices.get_indices", "cases": cached_cases, "check": cached_check,
         "bound": "one scenario: energy(1) cached, then isr_matrix_block(1, 'ph,ph') with the names of its contracted occupied indices as target names"},
